@@ -662,15 +662,9 @@ class MemoryFS(FS):
         # type: (Text, RawInfo) -> None
         _path = self.validatepath(path)
         with self._lock:
-            dir_path, file_name = split(_path)
-            parent_dir_entry = self._get_dir_entry(dir_path)
-
-            if parent_dir_entry is None or file_name not in parent_dir_entry:
+            resource_entry = self._get_dir_entry(_path)
+            if resource_entry is None:
                 raise errors.ResourceNotFound(path)
-
-            resource_entry = typing.cast(
-                _DirEntry, parent_dir_entry.get_entry(file_name)
-            )
 
             if "details" in info:
                 details = info["details"]
